@@ -354,6 +354,15 @@ class Matrix(Qube):
                 values[mask] = np.diag(np.ones(self._numer_[0]))
                 new_mask = Qube.or_(self._mask_, mask)
 
+        # Without that check, the matrices underneath the mask (which are
+        # meaningless and need not be invertible) would reach inv() as they are;
+        # identity matrices stand in for them, as above. The result is masked
+        # there anyway.
+        elif np.any(self._mask_):
+            values = values.copy()          # never modify the operand's array
+            values[np.broadcast_to(self._mask_, self._shape_)] = \
+                                        np.diag(np.ones(self._numer_[0]))
+
         # Invert the array
         with warnings.catch_warnings():
             warnings.filterwarnings('error')
